@@ -148,8 +148,9 @@ Fixpoint apply_ops (ops : list sop) (st : store) : store * list (option val) :=
 (* ---------------------------------------------------------------------------------------------
    The storage monad: every client call is a visible boundary
    --------------------------------------------------------------------------------------------- *)
-(* [Block]: the call parks on a condition variable that nothing in a sequential incarnation can signal
-   (hasMoreSpace.Wait during Start, before any consumer runs): no further storage call is ever made *)
+(* [Block]: the call parks on a condition variable that nothing in a sequential incarnation can signal: no
+   further storage call is ever made.  Since the repair 7592c5c1e no queue function produces it any more
+   (start-up recovery used to, with block_on_overflow: see reenqueue_old in Proofs7.v); the calculus keeps it. *)
 Inductive act (A : Type) : Type :=
 | Done (a : A)
 | Call (ops : list sop) (k : list (option val) -> act A)
@@ -243,8 +244,8 @@ Definition initStorage (c : cfg) : act vol :=
         Done (mkVol r w [] (Z.of_N qs') false 1 0))
     else Done (mkVol r w [] (Z.of_N qs) false 1 0)).
 
-(* putInternal's loop "for queueSize+reqSize > capacity": with blockOnOverflow the call waits on
-   hasMoreSpace instead of returning ErrQueueIsFull *)
+(* putInternal(ctx, req, blockOnOverflow)'s loop "for queueSize+reqSize > capacity": Offer passes
+   set.blockOnOverflow and then waits on hasMoreSpace instead of returning ErrQueueIsFull; recovery passes false *)
 Definition would_wait (c : cfg) (v : vol) (r : N) : bool :=
   blockOnOverflow c && Z.ltb (capacity c) (qsize v + sizeof c r).
 
@@ -266,8 +267,8 @@ Fixpoint reenqueue (c : cfg) (v : vol) (ivs : list (N * option val)) (dels : lis
   match ivs with
   | [] => Call (map DelItem dels) (fun _ => Done (v, errc))          (* cleanup() *)
   | (i, Some (VBody r)) :: t =>
-      if would_wait c v r then Block      (* Start waits for space; no consumer is running yet *)
-      else
+      (* putInternal(ctx, req, false): recovery NEVER waits for space (no consumer is running yet); a request that
+         does not fit is refused, also with block_on_overflow *)
       bind (putInternal c v r) (fun x =>
         if snd x then reenqueue c (fst x) t (dels ++ [i]) errc
         else reenqueue c (set_cdi (fst x) (cdi (fst x) ++ [i])) t dels (S errc))
